@@ -71,7 +71,11 @@ var ifaceTypes = []reflect.Type{
 	reflect.TypeOf((*definition.CloserComponent)(nil)).Elem(),
 }
 
-var cfgTags = []string{"", "lit", "${absent.key}", "${absent.key},required=false", "${absent.key:dflt}"}
+var cfgTags = []string{"", "lit", "${absent.key}", "${absent.key},required=false", "${absent.key:dflt}", "", "", ""}
+
+// cfg 5: an OPTIONAL prefix point on a section nobody configured; 6: a REQUIRED one (the start fails); 7: both on one holder,
+// the optional one declared first (the start fails all the same)
+var cfgPrefix = map[int][2]string{5: {"absent.sec,required=false", ""}, 6: {"", "absent.sec"}, 7: {"absent.sec,required=false", "absent.sec"}}
 
 type failLoader struct{}
 
@@ -143,9 +147,12 @@ func runGraph(sc *gScen) *gRun {
 				prefillSlots(b, gn.slots, env)
 			}
 		}
-		if gn.cfg > 0 {
+		if gn.cfg > 0 && gn.cfg < 5 {
 			t := cfgTags[gn.cfg]
 			b.cfgSpec = &t
+		}
+		if w, ok := cfgPrefix[gn.cfg]; ok {
+			b.wSpec = w
 		}
 		res.nodesObj = append(res.nodesObj, n)
 		comps = append(comps, n)
@@ -1538,7 +1545,7 @@ func (r *gRun) labels() []string {
 		if n.early > 0 || n.after > 0 {
 			sub = true
 		}
-		if n.flt != 0 || n.cfg == 2 {
+		if n.flt != 0 || n.cfg == 2 || n.cfg == 6 || n.cfg == 7 {
 			flt = true
 		}
 	}
